@@ -61,7 +61,7 @@ class Prop(common.PropertyCheck):
     pid = 'C03'
     rule = ("loaded samples (log and linear channels, a0 in {2,3,4,4.5,7.3}, a1 incl. the non-standard 0, gains present/absent) and plain arrays x channel "
             "argument absent / scalar position or name / lists (subsets, any order, names and (negative) positions mixed) x each of amplification_type, "
-            "amplifier_gain, resolution absent / explicit / lists with None entries (taken from file) x malformed length combinations. "
+            "amplifier_gain, resolution absent / explicit / lists with None entries (taken from file) x malformed length combinations (one list, or all three lists of one common wrong length); integer and floating-point files (log $PnE on float files included). "
             "Non-trivial = distinct (container, channel form, override pattern, law mix, outcome).")
     batch_size = 150
     assumptions = ["the two amplifier laws are evaluated by NumPy/libm; selection logic is compared exactly (bitwise replay of the chosen laws), the law value within 1e-15*(10+10|exponent|) relative of a 60-digit decimal evaluation (the float exponent a0/r*x carries rounding error amplified by ln10*exponent)"]
@@ -74,19 +74,32 @@ class Prop(common.PropertyCheck):
             form = rng.choice(['none', 'scalar', 'list', 'list', 'list'])
             yield {'cont': cont, 'D': D, 'N': rng.choice([0, 1, 7, 25]), 'form': form, 'seed': rng.randrange(1 << 30),
                    'at': rng.choice(['none', 'none', 'given', 'partial']), 'ag': rng.choice(['none', 'none', 'given', 'partial']),
-                   'res': rng.choice(['none', 'none', 'given', 'partial']), 'bad': rng.choice([None] * 8 + ['len_at', 'len_ag', 'len_res', 'scalar_at'])}
+                   'res': rng.choice(['none', 'none', 'given', 'partial']), 'bad': rng.choice([None] * 8 + ['len_at', 'len_ag', 'len_res', 'scalar_at', 'len_all_short', 'len_all_long']),
+                   'dt': rng.choice(['I', 'I', 'F'])}
 
     def build(self, case):
         import random
         r = random.Random(case['seed'])
         D, N = case['D'], case['N']
         if case['cont'] == 'sample':
-            spec = samples.spec_rich(r, N=N, D=D, datatype='I')
+            spec = samples.spec_rich(r, N=N, D=D, datatype=case.get('dt', 'I'))
             d, _ = samples.load(spec, name='c03.fcs')
             names = list(d.channels)
+            # the settings as the file records them (independent of the loader)
+            fat, fg = [], []
+            ex = dict((k, v) for k, v in spec['extra'])
+            for c in range(D):
+                a0, a1 = [float(v) for v in spec['pne'][str(c + 1)].split(',')]
+                if a0 != 0 and a1 == 0:
+                    a1 = 1.0
+                fat.append([bits(a0), bits(a1)])
+                g = ex.get('$P%dG' % (c + 1))
+                fg.append(None if g is None else bits(float(g)))
+            self._file_meta = {'ampType': fat, 'gain': fg, 'res': [bits(float(x)) for x in spec['ranges']]}
         else:
             d = np.array([[r.randrange(0, 1024) for _ in range(D)] for _ in range(N)], dtype=np.float64).reshape(N, D)
             names = None
+            self._file_meta = None
         form = case['form']
         if form == 'none':
             ch, chs = None, list(range(D))
@@ -130,6 +143,10 @@ class Prop(common.PropertyCheck):
                 res = [1024] * max(0, n - 1) if n > 1 else [1024, 1024]
             elif bad == 'scalar_at' and form == 'list':
                 at = 5
+            elif bad in ('len_all_short', 'len_all_long'):
+                # all three lists of one common length that is not the number of channels
+                m = max(0, n - 1) if bad == 'len_all_short' else n + 1
+                at, ag, res = [(4, 1)] * m, [2.] * m, [1024] * m
         return d, ch, at, ag, res, names
 
     def to_arg(self, v, kind):
@@ -146,6 +163,7 @@ class Prop(common.PropertyCheck):
         out = {'meta': meta_of(d), 'in': arr_bits(d), 'in_range': range_bits(d),
                'args': {'channels': None if ch is None else ({'list': ch} if isinstance(ch, list) else {'scalar': ch}),
                         'at': self.to_arg(at, 'pair'), 'ag': self.to_arg(ag, 'num'), 'res': self.to_arg(res, 'num')}}
+        out['file_meta'] = self._file_meta
         st0 = fpm.state(d) if names else None
         try:
             t = FlowCal.transform.to_rfi(d, ch, at, ag, res)
@@ -186,6 +204,8 @@ class Prop(common.PropertyCheck):
     # expected law per column, written independently of the model
     def expected_laws(self, impl):
         m, a = impl['meta'], impl['args']
+        if impl.get('file_meta'):
+            m = dict(m, **impl['file_meta'])
         D = m['ncols']
         chs = a['channels']
         if chs is None:
@@ -237,6 +257,12 @@ class Prop(common.PropertyCheck):
             return 'result type %s / dtype %s' % (impl['type_same'], impl['dtype'])
         if impl['meta']['isSample'] and (not impl['meta_same'] or not impl['input_same']):
             return 'non-range metadata changed by the conversion'
+        fm = impl.get('file_meta')
+        if fm:
+            for k in ('ampType', 'gain', 'res'):
+                if fm[k] != impl['meta'][k]:
+                    return 'the loaded sample reports %s %s, the file records %s' % (k, [None if v is None else ([unbits(x) for x in v] if isinstance(v, list) else unbits(v)) for v in impl['meta'][k]],
+                                                                                      [None if v is None else ([unbits(x) for x in v] if isinstance(v, list) else unbits(v)) for v in fm[k]])
         laws = self.expected_laws(impl)
         D = impl['meta']['ncols']
         for r, (rin, rout) in enumerate(zip(impl['in'], impl['out'])):
